@@ -232,11 +232,28 @@ def main():
     w("Definition src_u8_to_upper_hex_body : string := %s." % coq_str(norm_ws(mm.group(1)) if mm else "NOT FOUND"))
     w("")
 
-    # 3. ALLOWED_MISMATCH_MINUTES
-    m = re.search(r"const ALLOWED_MISMATCH_MINUTES: i64 = (\d+);", src["signature.rs"])
-    w("Definition src_ALLOWED_MISMATCH_MINUTES : Z := %s%%Z." % (m.group(1) if m else "(-1)"))
-    m = re.search(r"Duration::(\w+)\(ALLOWED_MISMATCH_MINUTES\)", src["signature.rs"])
-    w("Definition src_allowed_mismatch_unit : string := %s." % coq_str(m.group(1) if m else "NOT FOUND"))
+    # 3. the allowed clock mismatch handed to validate_signature by sigv4_validate_request, in nanoseconds:
+    #    `Duration::<unit>(<CONST or literal>)`, whatever the constant is called and whatever the unit
+    ns = -1
+    unit = "NOT FOUND"
+    body = fn_body(src["signature.rs"], r"pub async fn sigv4_validate_request<") or src["signature.rs"]
+    mults = {"weeks": 7 * 86400 * 10**9, "days": 86400 * 10**9, "hours": 3600 * 10**9, "minutes": 60 * 10**9, "seconds": 10**9,
+             "milliseconds": 10**6, "microseconds": 10**3, "nanoseconds": 1}
+    cands = re.findall(r"Duration::(\w+)\(\s*([A-Za-z_][A-Za-z0-9_]*|\d[\d_]*)\s*\)", body)
+    if len(cands) == 1 and cands[0][0] in mults:
+        unit, arg = cands[0]
+        val = None
+        if arg[0].isdigit():
+            val = int(arg.replace("_", ""))
+        else:
+            for f in files:
+                mm = re.search(r"const %s: \w+ = (\d[\d_]*);" % re.escape(arg), src[f])
+                if mm:
+                    val = int(mm.group(1).replace("_", ""))
+        if val is not None:
+            ns = val * mults[unit]
+    w("Definition src_allowed_mismatch_ns : Z := %s%%Z." % (str(ns) if ns >= 0 else "(-1)"))
+    w("Definition src_allowed_mismatch_unit : string := %s." % coq_str(unit))
     w("")
 
     # 4. string / byte-string constants
